@@ -1033,6 +1033,45 @@ func ruleLoopProgress(r *core.Reporter) {
 			}
 		}
 	}
+	// reader-driven loops: after an error from the token source the loop is left — xml/json decoders and bufio
+	// readers keep returning the same error, a `continue` on error spins for ever
+	for _, fn := range scopeS(p) {
+		allInstrs(fn, func(in ssa.Instruction) {
+			c, ok := in.(*ssa.Call)
+			if !ok || !isTokenSource(c) {
+				return
+			}
+			if !ir.Reach([]ir.Pt{ir.After(c)}, ir.Opts{}).Reached[c] {
+				return // not in a loop
+			}
+			r.Analysed(fn)
+			isNil := errIsNilAtom(c)
+			type edge struct {
+				b *ssa.BasicBlock
+				s int
+			}
+			nilEdges := map[edge]bool{}
+			tested := false
+			for _, ii := range ir.Ifs(fn) {
+				if isNil(ii.Atom) {
+					tested = true
+					nilEdges[edge{ii.If.Block(), ii.EdgeWhen(true)}] = true
+				}
+			}
+			key := core.FuncName(fn) + "/reader-loop@" + ir.CallName(c.Common())
+			if !tested {
+				r.Violated(key, p.InstrPos(c), "the error of %s is never compared with nil inside the loop that calls it", ir.CallName(c.Common()))
+				return
+			}
+			again := ir.Reach([]ir.Pt{ir.After(c)}, ir.Opts{EdgeOK: func(b *ssa.BasicBlock, s int) bool { return !nilEdges[edge{b, s}] }}).Reached[c]
+			if again {
+				r.Violated(key, p.InstrPos(c), "the loop can call %s again after it returned an error (no path through `err == nil`): the decoder/reader returns the same error from then on, so a malformed or truncated document makes this loop spin for ever", ir.CallName(c.Common()))
+			} else {
+				n++
+				r.Held(key, 1, "every way round the loop passes `err == nil` of the token source")
+			}
+		})
+	}
 	if r.Floor("loops with loop-carried conditions in S", loops, 15) {
 		r.Held("loop-progress", n, "%d loops: every back edge updates a variable of the continuation test", n)
 	}
@@ -1099,4 +1138,26 @@ func ruleLoopProgress(r *core.Reporter) {
 			}
 		})
 	}
+}
+
+// isTokenSource: a call that pulls the next piece from a stateful decoder/reader and reports failure as its second result.
+func isTokenSource(c *ssa.Call) bool {
+	var f *types.Func
+	if c.Call.IsInvoke() {
+		f = c.Call.Method
+	} else if sc := c.Call.StaticCallee(); sc != nil {
+		f, _ = sc.Object().(*types.Func)
+	}
+	if f == nil {
+		return false
+	}
+	sig, _ := f.Type().(*types.Signature)
+	if sig == nil || sig.Recv() == nil || sig.Results().Len() != 2 || sig.Results().At(1).Type().String() != "error" {
+		return false
+	}
+	switch f.Name() {
+	case "RawToken", "Token", "Read", "ReadString", "ReadBytes", "ReadRune", "ReadLine", "ReadSlice":
+		return true
+	}
+	return false
 }
